@@ -223,7 +223,7 @@ def _strategy():
                            max_watchers=3, kill_cmd=True, signal_cmd=True,
                            respawn_false=True, rm=True, set_other=True,
                            config=True, job_control=True, ondemand=True,
-                           capture=True)
+                           capture=True, never_exec=True)
 
 
 HOOKSETS = {
